@@ -1,6 +1,6 @@
 """C12: wire formats. Differential execution of the real parsers / printers against the Lean
 model of them, plus a store-level pass: whatever is accepted must read back."""
-import collections, json, os, random, subprocess, time
+import collections, json, os, random, re, subprocess, time
 
 from . import common as C
 from . import storelayer as S
@@ -213,6 +213,26 @@ def has_dup_keys(text):
     return bool(dup)
 
 
+def ttl_malformed(t):
+    """the spellings the property names as malformed, stated without the model: `head:0`, negative or overflowing
+    numbers, unknown keywords (None = not judged here)"""
+    if not isinstance(t, str):
+        return None
+    if t in ("forever", "ephemeral"):
+        return False
+    for kw, bound, low in (("time:", 1 << 64, 0), ("head:", 1 << 32, 1)):
+        if t.startswith(kw):
+            n = t[len(kw):]
+            if re.fullmatch(r"-\d+", n):
+                return True                      # negative
+            if re.fullmatch(r"\d+", n):
+                return not (low <= int(n) < bound)   # head:0, overflow
+            return None                          # signs, spaces, junk: the model's business
+    if re.fullmatch(r"[a-z]+(:.*)?", t):
+        return True                              # unknown keyword
+    return None
+
+
 def compare(inp, impl, model):
     """returns list of findings: ('corr', ...) model/impl disagreement, ('prop', ...) the
     implementation itself violates a round-trip statement"""
@@ -232,6 +252,21 @@ def compare(inp, impl, model):
                 out.append(("corr", "non-string JSON accepted as a TTL"))
             return out
     if kind == "frame_json" and has_dup_keys(inp["s"]):
+        return out
+    # the property's own words: a malformed TTL is rejected at the boundary
+    t = None
+    if kind == "ttl":
+        t = inp["s"]
+    elif kind == "ttl_json":
+        t = v
+    elif kind == "frame_json":
+        try:
+            fj = json.loads(inp["s"])
+            t = fj.get("ttl") if isinstance(fj, dict) else None
+        except Exception:
+            t = None
+    if "ok" in impl and ttl_malformed(t):
+        out.append(("prop", "a malformed TTL (%r) was accepted" % t))
         return out
     iok, mok = "ok" in impl, "ok" in model
     if iok != mok:
